@@ -537,6 +537,7 @@ func c11RangePrograms(r *rand.Rand, n int) []*Prog {
 			vals[i] = int64(1 + r.Intn(9))
 		}
 		s, i, e := v("s", ts), v("i", TInt), v("e", TInt)
+		var pfuncs []*Func
 		body := []*S{dcl("s", slit(vals...)), dcl("acc", lit(TInt, 0))}
 		blocks := [][]*S{
 			{ // a later element written directly
@@ -576,9 +577,30 @@ func c11RangePrograms(r *rand.Rand, n int) []*Prog {
 				{&S{K: "declzero", Names: []string{"b4"}, DeclTy: tb}, asg(v("b4", tb), &E{K: "append", Ty: tb, X: v("b4", tb), Args: []*E{lit(et, big), lit(et, 1)}}), bump("b4", lit(TInt, 0)), pr(sS("append"), bx("b4", lit(TInt, 0)))},
 				{dcl("b5", &E{K: "slicelit", Ty: tb, Args: []*E{lit(et, 1), lit(et, big)}}), rng(v("b5", tb), "k", "x", dcl("y", v("x", et)), &S{K: "opassign", Lhs: []*E{v("y", et)}, Op: "+", E: lit(et, step)}, pr(sS("range-value"), v("k", TInt), v("y", et)))},
 			}
-			for _, k := range r.Perm(len(tblocks))[:2+r.Intn(3)] {
+			// a nil slice re-sliced (the buf = buf[:0] idiom) keeps its element type
+			tblocks = append(tblocks, []*S{&S{K: "declzero", Names: []string{"b6"}, DeclTy: tb}, asg(v("b6", tb), &E{K: "slice", Ty: tb, X: v("b6", tb), Hi: lit(TInt, 0)}),
+				asg(v("b6", tb), &E{K: "append", Ty: tb, X: v("b6", tb), Args: []*E{lit(et, big)}}), bump("b6", lit(TInt, 0)), pr(sS("nil-resliced"), bx("b6", lit(TInt, 0)), lenOf(v("b6", tb)))})
+			for _, k := range r.Perm(len(tblocks))[:2+r.Intn(4)] {
 				body = append(body, tblocks[k]...)
 			}
+		}
+		// a slice literal is a new slice every time it is evaluated (in a loop body, in a function called again)
+		{
+			mk := &Func{Name: "mk", Params: []string{"k"}, PTypes: []*Ty{TInt}, Results: []*Ty{ts}, Body: []*S{
+				dcl("l", slit(1, 2, 3)), &S{K: "opassign", Lhs: []*E{idx(v("l", ts), lit(TInt, 0))}, Op: "+", E: v("k", TInt)}, ret(v("l", ts))}}
+			if id%2 == 0 {
+				mk.Body = []*S{ret(slit(1, 2, 3))}
+			}
+			pfuncs = append(pfuncs, mk)
+			call := func(k int64) *E { return &E{K: "call", Fn: "mk", Ty: ts, NRes: 1, Args: []*E{lit(TInt, k)}} }
+			body = append(body,
+				dcl("m1", call(10)), asg(idx(v("m1", ts), lit(TInt, 1)), lit(TInt, 77)),
+				dcl("m2", call(20)), &S{K: "copy", Dst: v("m2", ts), E: slit(5)},
+				dcl("m3", call(30)),
+				pr(sS("fresh"), idx(v("m1", ts), lit(TInt, 0)), idx(v("m1", ts), lit(TInt, 1)), idx(v("m2", ts), lit(TInt, 0)), idx(v("m2", ts), lit(TInt, 1)), idx(v("m3", ts), lit(TInt, 0)), idx(v("m3", ts), lit(TInt, 1))),
+				&S{K: "for", Init: dcl("q", lit(TInt, 0)), Cond: bin("<", TBool, v("q", TInt), lit(TInt, 3)), Post: &S{K: "incdec", Lhs: []*E{v("q", TInt)}, D: 1}, Body: []*S{
+					dcl("lit", slit(int64(1+r.Intn(5)), 2, 3)), &S{K: "opassign", Lhs: []*E{idx(v("lit", ts), v("q", TInt))}, Op: "+", E: lit(TInt, 10)},
+					pr(sS("loop-lit"), idx(v("lit", ts), lit(TInt, 0)), idx(v("lit", ts), lit(TInt, 1)), idx(v("lit", ts), lit(TInt, 2)))}})
 		}
 		for _, k := range r.Perm(len(blocks))[:2+r.Intn(3)] {
 			body = append(body, blocks[k]...)
@@ -586,6 +608,7 @@ func c11RangePrograms(r *rand.Rand, n int) []*Prog {
 			body = append(body, pr(sS("acc"), v("acc", TInt)))
 		}
 		p := &Prog{ID: fmt.Sprintf("c11/range-%d", id), Pkg: "main", Main: "Main"}
+		p.Funcs = append(p.Funcs, pfuncs...)
 		p.Funcs = append(p.Funcs, &Func{Name: "Main", Body: body})
 		progs = append(progs, p)
 	}
